@@ -53,6 +53,9 @@ def path_classifiers():
          group_first_segment(m['ast']) and
          (m['cfg']['mb'] or '//' in m['name'] or m['name'].endswith('/') or n_nonempty(m['name']) < n_spat(m['ast'])
           or any(s in ('g', 'G') for s in m['ast'].split(':')[1].split('/')))),
+        ('C02-globstar-div-newline', lambda m: m['name'] is not None and m['impl'] is True and m['ub'] is False and
+         m['name'].endswith('\n') and len(m['name']) >= 2 and m['name'][-2] != '/' and
+         any(sg in ('g', 'G') for sg in m['ast'].split(':')[1].split('/')[:-1])),
         ('C02-dotdir-guard-newline', lambda m: m['name'] is not None and m['impl'] is False and m['lb'] is True and
          m['name'].rstrip('/').split('/')[-1] in ('.\n', '..\n')),
         ('C01-group-dot-guard-repeat', lambda m: m['name'] is not None and m['impl'] is False and m['lb'] is True and
